@@ -22,12 +22,53 @@ def T(checks=None, shards=1, timeout=600, **kw):
     d.update(kw)
     return d
 
+H = "/verif/harness/"
+
 PROPS = {
+    "C01": {
+        "level": "exploration",
+        "units": [
+            U("c01", "TestMembership", T(20, 16, 300), T(400, 16, 2400)),
+        ],
+    },
+    "C02": {
+        "level": "exploration",
+        "units": [
+            U("c02", "TestSoundness", T(60, 16, 300), T(1500, 16, 2400)),
+        ],
+    },
+    "C03": {
+        "level": "exploration",
+        "units": [
+            U("c03", "TestConsistency", T(30, 16, 300), T(300, 16, 2400)),
+        ],
+    },
     "C04": {
         "level": "exploration",
         "units": [
-            U("c04", "TestBalloonVsRef", T(12, 16, 300), T(150, 16, 1800)),
-            U("c04", "TestTreesVsRef", T(400, 8, 300), T(4000, 16, 1800)),
+            U("c04", "TestBalloonVsRef", T(40, 16, 300), T(300, 16, 2400)),
+            U("c04", "TestTreesVsRef", T(250, 8, 300), T(3000, 16, 2400)),
+        ],
+    },
+    "C12": {
+        "level": "exploration",
+        "units": [
+            U("c12", "TestStructured", T(40, 12, 300), T(600, 16, 2400)),
+            U("c12", "TestScriptedServer", T(12, 4, 300), T(150, 16, 2400)),
+            U("c12", "TestCorpus", T(None, 1, 300), T(None, 1, 300)),
+            U("c12", "FuzzMembershipAnswer", None, T(None, 1, 600, fuzz="240s", cwd=H + "c12", cores=16), fuzzbuild=True),
+            U("c12", "FuzzIncrementalAnswer", None, T(None, 1, 600, fuzz="240s", cwd=H + "c12", cores=16), fuzzbuild=True),
+            U("c12", "TestReplayBytes"),
+        ],
+    },
+    "C13": {
+        "level": "exploration",
+        "units": [
+            U("c13", "TestProofRoundTrip", T(12, 16, 300), T(120, 16, 2400)),
+            U("c13", "TestSyntheticRoundTrip", T(1500, 4, 300), T(30000, 16, 2400)),
         ],
     },
 }
+
+# commits in /repo that add the build-tag-guarded hooks
+HOOK_COMMITS = ["e12f4a5"]
